@@ -294,6 +294,7 @@ func (o Obs) Coq() string {
 }
 
 func observe(f func() *lint.LintResult) (o Obs) {
+	tick()
 	defer func() {
 		if r := recover(); r != nil {
 			o = Obs{Kind: "panic", Msg: fmt.Sprintf("%v", r)}
